@@ -87,6 +87,8 @@ pub struct Stash {
     pub mount: Option<(Result<u8, String>, Vec<String>)>,
     /// result of the LOOKUP half of a `Y` step
     pub req: Option<(String, Vec<String>)>,
+    /// result of the INIT half of a `Z` step
+    pub init: Option<(String, Vec<String>)>,
 }
 
 pub struct Bk {
@@ -408,6 +410,14 @@ impl AsyncFileSystem for Bk {
 impl BackendFileSystem for Bk {
     fn mount(&self) -> io::Result<(Entry, u64)> {
         self.sh.log.lock().unwrap().push(format!("{}.mount", self.spec.id));
+        if GATED.with(|g| g.get()) {
+            // `Z` steps: the mounting thread parks inside the backend's mount() callback
+            let hook = self.sh.gate.lock().unwrap().take();
+            if let Some((entered, go)) = hook {
+                let _ = entered.send(());
+                let _ = go.recv_timeout(Duration::from_secs(10));
+            }
+        }
         if let Some(n) = self.spec.mans.strip_prefix('e') {
             return Err(os(n.parse().unwrap_or(5)));
         }
@@ -626,7 +636,7 @@ impl World {
             live: BTreeMap::new(),
             slot_hist: BTreeMap::new(),
             unique: 1,
-            stash: Stash { umount: None, mount: None, req: None },
+            stash: Stash { umount: None, mount: None, req: None, init: None },
         }
     }
 
@@ -706,6 +716,11 @@ impl World {
         let res = match f[0] {
             "m" => self.do_mount(&f),
             "u" => self.do_umount(&f),
+            "i" if self.stash.init.is_some() => {
+                let (r, calls) = self.stash.init.take().unwrap();
+                self.sh.log.lock().unwrap().extend(calls);
+                r
+            }
             "i" => {
                 let o = FsOptions::from_bits_truncate(f[1].parse().unwrap_or(0));
                 match self.vfs.init(o) {
@@ -836,6 +851,56 @@ impl World {
         // exactly what `Server::remap_ctx_ids` does before dispatch
         self.vfs.id_remap_with_nodeid(&mut ctx, nodeid.into()).map_err(|e| show_io(&e))?;
         Ok(ctx)
+    }
+
+    /// `Z:<init bits>:<mount fields>`: a MOUNT on one thread, parked inside the backend's mount()
+    /// callback (which runs before the mount lock is taken), while the client's INIT is served on
+    /// another thread.  Booked as `i:..` then `m:..`: the mount completes after the negotiation and
+    /// must initialise its backend with the negotiated options.
+    pub fn run_pair_init(&mut self, bits: &str, mf: &[&str]) {
+        use std::sync::mpsc::sync_channel;
+        let spec = BkSpec { id: mf[2].parse().unwrap_or(0), mans: mf[4].to_string(), ie: mf[5].parse().unwrap_or(0) };
+        let map = parse_map(mf[3]);
+        let bk = self.bk(&spec);
+        let (etx, erx) = sync_channel::<()>(1);
+        let (gtx, grx) = sync_channel::<()>(1);
+        *self.sh.gate.lock().unwrap() = Some((etx, grx));
+        let vfs_a = self.vfs.clone();
+        let mp = mf[1].to_string();
+        let ta = std::thread::spawn(move || {
+            GATED.with(|g| g.set(true));
+            match map {
+                None => vfs_a.mount(bk, &mp),
+                Some(m) => vfs_a.mount_with_id_mapping(bk, &mp, Some(m)),
+            }
+            .map_err(|e| show_vfs_err(&e))
+        });
+        let t_park = std::time::Instant::now();
+        while t_park.elapsed() < Duration::from_millis(300) {
+            if erx.try_recv().is_ok() || ta.is_finished() {
+                break;
+            }
+            std::thread::sleep(Duration::from_micros(200));
+        }
+        let vfs_b = self.vfs.clone();
+        let o = FsOptions::from_bits_truncate(bits.parse().unwrap_or(0));
+        let tb = std::thread::spawn(move || match vfs_b.init(o) {
+            Ok(out) => format!("ok{}", out.bits()),
+            Err(e) => show_io(&e),
+        });
+        let t0 = std::time::Instant::now();
+        while !tb.is_finished() && t0.elapsed() < Duration::from_millis(25) {
+            std::thread::sleep(Duration::from_micros(200));
+        }
+        let _ = gtx.send(());
+        let rm = ta.join();
+        let ri = tb.join();
+        *self.sh.gate.lock().unwrap() = None;
+        let log = self.take_log();
+        let pre = format!("{}.", spec.id);
+        let (mcalls, icalls): (Vec<String>, Vec<String>) = log.into_iter().partition(|c| c.starts_with(&pre));
+        self.stash.init = Some((ri.unwrap_or_else(|_| "panic".to_string()), icalls));
+        self.stash.mount = Some((rm.unwrap_or_else(|_| Err("panic".to_string())), mcalls));
     }
 
     /// `Y:<umount path>:<uid>:<gid>:<pseudo parent>:<hex name>`: UMOUNT on one thread, parked inside
